@@ -225,6 +225,10 @@ fn fixed_spot(ctx: &Ctx) -> CaseInfo {
     eval(&Program { nq: 1, body: vec![Goal::Fresh(vec![1, 2], body)] }, true, ctx)
 }
 
+pub fn run_tree_pub(bytes: &[u8], ctx: &Ctx) -> CaseInfo {
+    run_tree(bytes, ctx)
+}
+
 pub fn def() -> PropertyDef {
     PropertyDef {
         id: "C20",
